@@ -44,9 +44,9 @@ def py_optimize_text(sxp, share=None, judge=None, states=None, cover=None):
         if CALL_BUDGET is not None:
             o, _ = optimize_counted(p, CALL_BUDGET(S.size(sxp)))
         elif cover is not None:
-            o = cover.call(lambda: optimize(p))
+            o = _watchdog(lambda: cover.call(lambda: optimize(p)), sxp)
         else:
-            o = optimize(p)
+            o = _watchdog(lambda: optimize(p), sxp)
         if SNAPSHOT and snapshot(p) != snap:
             return p, o, "MUTATED its argument"
     except RecursionError:
@@ -111,8 +111,34 @@ class ArmCoverage:
                 "unhit": [f"{os.path.relpath(f, self.root)}:{ln}" for f, ln in unhit][:60]}
 
 
+TWIN_LIMIT = 1500  # cases per stream re-run over string twins of their constants (0 = off)
+
+
+def has_const(sxp):
+    return any(isinstance(t, tuple) and t and t[0] in ("eq", "ne", "ge", "gt", "le", "lt", "gele", "gelt", "gtle", "gtlt", "in", "notin", "subset", "rsubset", "superset", "rsuperset") and len(t) > 1
+               for t in S.subterms(sxp))
+
+
 COVER = None  # created on first use
 COVER_LIMIT = 2500  # cases per stream that run under the line tracer
+
+
+WATCHDOG_S = 60  # a single optimize call that runs this long is trouble of its own (C12's subject): the check stops with exit status 2
+
+
+def _watchdog(fn, sxp):
+    import signal
+
+    def on_alarm(signum, frame):
+        raise HarnessError(f"optimize did not return within {WATCHDOG_S} s on {S.show(sxp)[:300]} (termination is C12's property; this check cannot go on)")
+
+    old = signal.signal(signal.SIGALRM, on_alarm)
+    signal.alarm(WATCHDOG_S)
+    try:
+        return fn()
+    finally:
+        signal.alarm(0)
+        signal.signal(signal.SIGALRM, old)
 
 
 CALL_BUDGET = None  # C12: max optimize* invocations per call as a function of the tree size (None = unlimited)
@@ -338,6 +364,26 @@ def run(chk, name, cases, cfg, differs, share=False, restore_vars=True):
     chk.add_corr(name, len(cases), disagreements)
     st = chk.extra.setdefault("opt_stats", {})
     st[name] = {"cases": len(cases), "changed_by_optimize": changed, "quirk_arms_fired": fired}
+    # -- twin pass: the same trees over the digit-string twins of their constants ("1" for 1, ...), in the same process
+    # and after the numeric pass: the result must be the isomorphic tree (same text after lifting back).
+    if TWIN_LIMIT:
+        idx = [k for k, s in enumerate(cases) if has_const(s) and lift.twinnable(s)]
+        step = max(1, len(idx) // TWIN_LIMIT)
+        tdis, tn = [], 0
+        with lift.twin():
+            for k in idx[::step]:
+                ptxt = py[k][2]
+                if ptxt.startswith(("RAISED", "UNLIFTABLE", "MUTATED")):
+                    continue
+                ttxt = py_optimize_text(cases[k], {} if share else None)[2]
+                tn += 1
+                if ttxt != ptxt:
+                    tdis.append({"input": S.show(cases[k]), "numeric_constants": ptxt, "string_twins": ttxt})
+        if tn:
+            chk.add_corr(name + "/string-twins", tn, tdis, note="same tree over order-isomorphic str constants must optimise to the isomorphic tree")
+            chk.evaluations += tn
+            for d in tdis[:5]:  # a cache keyed on printed constants answers with the wrong type: judged on the real objects
+                chk.add_failure(d["input"] + "  [constants lowered as the strings that print the same]", {"what": "optimize depends on how constants print, not on their values", **d}, None)
     return disagreements
 
 
